@@ -28,6 +28,18 @@ CLAIMED["C03"] = ("7/C03",
     "equality of the metric with its value at -inf/+inf",
     "as C02; two genuine defects were found by this check and repaired (known_findings.json: fixed 9ba2891, 33d4440)",
     "Coq proof + ast-regenerated tie lemmas + vm_compute correspondence")
+CLAIMED["C08"] = ("7/C08",
+    "Coq theorems for all inputs: swap() transposes the confusion matrix at every threshold (hence the six rate "
+    "identities), negation+direction flip and increasing affine maps leave every confusion matrix unchanged at the "
+    "mapped threshold; Scores.swap regenerated from source with a tie lemma; equivariance of returned thresholds/EER "
+    "and invariance of EER/AUC are checked on the implementation (pairs of executions) within the property's few-ulp tolerance",
+    "partial: threshold/EER/AUC equivariance is oracle+correspondence, not a theorem (one-ulp sentinel convention breaks exact equality)",
+    "Coq proof + tie lemma + vm_compute correspondence + paired-execution oracle")
+CLAIMED["C09"] = ("7/C09",
+    "Coq theorem for all inputs: at every threshold between the materialised extremes the materialised object has the "
+    "same confusion matrix; thresholds for in-range targets and full/partial AUC are compared on the implementation on every run",
+    "partial: AUC and threshold equality are oracle-only; model's materialise/cm tied by correspondence",
+    "Coq proof + vm_compute correspondence + paired-execution oracle")
 PENDING = {}
 
 
